@@ -279,9 +279,9 @@ def main(argv=None):
     wall = time.time() - t0
     n_known_refuted = sum(1 for o in refuted if match_known(known, prop, {"unit": o["unit"], "clause": o["clause"], "path": o.get("path", []), "witness": o.get("model")}))
     proved = sum(1 for o in vcs if o.get("status") == "proved")
-    level = spec.get("category", "proof")
-    if n_known_refuted or known_lines or spec.get("force_other"):
-        level = "other"
+    from .props import table as _table
+
+    level = _table.category(prop)  # static: the table's category, 'other' when known_findings.json lists an open finding (same rule as MANIFEST.json)
     by_backend = collections.Counter(o.get("backend", "?") for o in vcs if o.get("status") == "proved")
     samples = []
     for o in vcs[:: max(1, len(vcs) // 6)][:8]:
